@@ -11,6 +11,8 @@ package container
 
 import (
 	"bytes"
+	"encoding/base64"
+	"encoding/binary"
 	"encoding/json"
 	"errors"
 	"fmt"
@@ -184,8 +186,8 @@ func TestVerifReplay(t *testing.T) {
 					for _, e := range []error{io.EOF, errors.New("injected read fault")} {
 						r, err := f.rs(&cutReader{r: bytes.NewReader(data), left: o, err: e})
 						if err == nil {
-							if e == io.EOF && (f.name == "car" || f.name == "carBase64") && len(r) < len(want) {
-								continue // cut between two blocks: the documented undetectable case (fewer blocks)
+							if e == io.EOF && cleanCut(f.name, data, o) {
+								continue // cut exactly between two blocks: the documented undetectable case
 							}
 							bad++
 							if bad < 4 {
@@ -200,6 +202,36 @@ func TestVerifReplay(t *testing.T) {
 			}
 		}
 	}
+}
+
+// cleanCut reports whether offset o of a written CAR (or base64 CAR) falls exactly between two sections (after the header).
+func cleanCut(format string, data []byte, o int) bool {
+	raw := data
+	if format == "carBase64" {
+		if o%4 != 0 {
+			return false
+		}
+		dec, err := base64.StdEncoding.DecodeString(string(data))
+		if err != nil {
+			return false
+		}
+		raw, o = dec, o/4*3
+	} else if format != "car" {
+		return false
+	}
+	pos, n := 0, 0
+	for pos < len(raw) {
+		l, k := binary.Uvarint(raw[pos:])
+		if k <= 0 {
+			return false
+		}
+		pos += k + int(l)
+		n++
+		if pos == o && n >= 1 {
+			return true
+		}
+	}
+	return false
 }
 
 type failWriter struct{}
